@@ -132,3 +132,12 @@ func init() {
 		Old: "\tm.store.ApplyBlock(cs, cau)\n\tm.applyPoolUpdate(cau, cs)\n",
 		New: "\tm.store.ApplyBlock(cs, cau)\n\tm.store.Flush()\n\tm.applyPoolUpdate(cau, cs)\n"})
 }
+
+func init() {
+	mutant(Mutant{Rule: "C01.R8", Name: "apply-non-attaching-block", File: "chain/manager.go",
+		Old: "\t} else if b.ParentID != m.tipState.Index.ID {\n\t\tpanic(\"applyTip called with non-attaching block\")\n\t} else if bs == nil {",
+		New: "\t} else if bs == nil {"})
+	mutant(Mutant{Rule: "C07.R8", Name: "unconfirmed-spent-kept", File: "wallet/wallet.go", Nth: 1,
+		Old: "\t\t\ttpoolSpent[sci.Parent.ID] = true\n\t\t\tdelete(tpoolUtxos, sci.Parent.ID)\n",
+		New: "\t\t\ttpoolSpent[sci.Parent.ID] = true\n"})
+}
